@@ -11,6 +11,7 @@ pub mod c03;
 pub mod c04;
 pub mod c05;
 pub mod c06;
+pub mod c07;
 pub mod cmdtable;
 pub mod c15;
 pub mod c16;
@@ -31,6 +32,7 @@ pub fn parent_main(prop: &str, tier: &str) -> i32 {
         "C15" => c15::parent(tier),
         "C05" => c05::parent(tier),
         "C17" => c17::parent(tier),
+        "C07" => c07::parent(tier),
         "C19" => c19::parent(tier),
         "C06" => c06::parent(tier),
         "C16" => c16::parent(tier),
@@ -67,6 +69,10 @@ pub fn worker_main(prop: &str, tier: &str, _slot: usize) {
         }
         "C06" => {
             let mut h = c06::handle_factory();
+            pool::worker_loop(|t, io| h(tier, t, io))
+        }
+        "C07" => {
+            let mut h = c07::handle_factory();
             pool::worker_loop(|t, io| h(tier, t, io))
         }
         "C17" => {
